@@ -280,7 +280,7 @@ func ruleCheckerTable(c *Ctx, rule string) *checkerTables {
 		r.Ob(rule, "oracle: documentation table", "").Und(derr)
 		return nil
 	}
-	r.Floor(rule, "rows of the documented Type Coersion table", len(rows), 33)
+	r.Floor(rule, "rows of the documented Type Coersion table", len(rows), 25)
 	t := c.extractCheckerTables()
 	if t.err != "" {
 		r.Ob(rule, "extraction of the checker table", "").Und(t.err)
@@ -494,7 +494,7 @@ func ruleEvaluatorTable(c *Ctx, rule string) {
 		r.Ob(rule, "oracle: documentation table", "").Und(derr)
 		return
 	}
-	r.Floor(rule, "rows of the documented Type Coersion table", len(rows), 33)
+	r.Floor(rule, "rows of the documented Type Coersion table", len(rows), 25)
 	fn := c.Fn("engine", "executeBinaryExpr")
 	if fn == nil {
 		r.Ob(rule, "anchor engine.executeBinaryExpr", "").Und("not found")
@@ -585,7 +585,7 @@ func ruleCheckerSubsetEvaluator(c *Ctx, rule string, t *checkerTables) {
 			}
 		}
 	}
-	r.Floor(rule, "cells accepted by the checker", n, 60)
+	r.Floor(rule, "cells accepted by the checker", n, 40)
 	// unary
 	fu := c.Fn("engine", "executeUnaryExpression")
 	for _, k := range sortedKeys(t.unary) {
